@@ -34,7 +34,7 @@ def history(rng, arch, nops, name):
         # a row whose CFA is an expression over the frame pointer while everything else looks standard (PLT stubs, signal
         # trampolines): its result depends on the registers of the call, never on what an earlier call computed
         R = ARCH_REGS[arch]
-        fdes.append(dict(start=pos, len=0x40, rows=[(0, dict(cfa=("e", [("breg", R["fp"], 16)]), fp=("s",), ra=("o", -8)))]))
+        fdes.append(dict(start=pos, len=0x40, rows=[(0, dict(cfa=("e", [("breg", R["fp"], 16)]), fp=("s",), ra=("o", -8)))], generic=True))
         pos += 0x40
         pres = ["hdr", "eh", "debug"][i % 3]
         end = base_avma + (pos - base_svma) + 0x40
@@ -56,7 +56,7 @@ def history(rng, arch, nops, name):
             for off, _ in f["rows"]:
                 pool.append(a0 + off + 1)
                 pool.append(a0 + off + 1 + 509)        # same slot, other address
-            if len(f["rows"]) == 1 or f["rows"][1][0] > 1:
+            if (len(f["rows"]) == 1 or f["rows"][1][0] > 1) and not f.get("generic"):
                 cacheable.add(a0 + 1)                  # inside the first (standard) row
             pool.append(a0 + f["len"])                 # just past the FDE
     pool += [0x5, 0x9000, 0x20000 + 509 * 3]
